@@ -125,9 +125,20 @@ def tables(model, rep):
     rep.floor("R1", n, 10)
 
 
+def _norm(fn):
+    """pure local aliases inlined, parent links restored (section = config["linreg"] ... section["vo"])"""
+    from ..core import inline_pure_aliases
+    fn = inline_pure_aliases(fn)
+    for node in ast.walk(fn):
+        for ch in ast.iter_child_nodes(node):
+            ch._parent = node
+    return fn
+
+
 def generic_loader(model, rep):
     rel = model.rel("components")
     owner, fn = model.method("_Component", "from_file")
+    fn = _norm(fn)
     where = "%s:%d" % (rel, fn.lineno)
     construct = "components._Component.from_file"
     src = ast.unparse(fn)
@@ -242,6 +253,7 @@ def is_loopkey(node, key):
 def linreg_loader(model, rep):
     rel = model.rel("components")
     owner, fn = model.method("LinReg", "from_file")
+    fn = _norm(fn)
     if owner != "LinReg":
         raise AnalysisError("LinReg no longer has its own loader")
     where = "%s:%d" % (rel, fn.lineno)
